@@ -1045,7 +1045,8 @@ fn c16(rng: &mut Rng, tier: &str, idx: usize) -> Case {
     if idx % 7 == 3 && !f.terms.iter().any(|t| t.0 == 0) {
         // HP:0000000 as a term without parents (a second root) that has a child: its records (a
         // term record, a parent record with zero parents) wherever the supply order puts them
-        let used: Vec<u32> = f.terms.iter().map(|t| t.0).collect();
+        let mut used: Vec<u32> = f.terms.iter().map(|t| t.0).collect();
+        used.push(0);
         let child = gen_ids(rng, 1, &used)[0];
         f.terms.push((0, gen_name(rng)));
         f.terms.push((child, gen_name(rng)));
